@@ -200,7 +200,12 @@ func runC09(c c09Case) *vlib.Outcome {
 			return o
 		}
 		for _, ln := range locs {
-			order, ok := w.ancestors(ln)
+			// (a location reached through two parents is listed once
+			// here; each comparison below decides by itself whether such
+			// a location contributes anything, in which case the
+			// observation is unspecified)
+			order, ok := w.ancestorsFor(ln, func(*mLoc) bool { return false })
+			_, strict := w.ancestors(ln)
 			lwhen := when + " observing " + ln
 			if ok && len(order) >= 3 {
 				deep = true
@@ -243,6 +248,15 @@ func runC09(c c09Case) *vlib.Outcome {
 					w.eventCtx = ectx
 					ec := w.checkEvent(ln, e, lwhen)
 					w.eventCtx = nil
+					if !strict && (ec.Unspec || ec.ErrorDisp) {
+						// a diamond whose shared location contributes: what
+						// ran (and wrote) is not specified
+						for id, env := range envRule {
+							if env {
+								w.model[ln].Unspec["made_"+id] = true
+							}
+						}
+					}
 					for id := range ec.NBind {
 						if envRule[id] && nAt > 0 {
 							// the action wrote into the location the
